@@ -17,12 +17,18 @@ namespace RotoV.C06
 
 open RotoV.Unify RotoV.Gen.UnifyFacts
 
-/-- obligation on the GENERATED arms of `UnionFind::find`, `find_ref` and
-`TypeChecker::resolve_type`: all three follow exactly the four kinds of type
-variable (so the lookups of the checker and of the store agree). -/
+/-- obligation on the GENERATED arms of `UnionFind::find`, `find_ref`,
+`TypeChecker::resolve_type` and `TypeInfo::resolve` / `resolve_ref`: all five
+follow exactly the four kinds of type variable (so the lookups of the checker,
+of the store and of every later stage agree). -/
 theorem lookup_arms_ok :
-    (∀ t, findHead t = head t) ∧ (∀ t, findRefHead t = head t) ∧ (∀ t, resolveHead t = head t) :=
-  ⟨findHead_eq, findRefHead_eq, resolveHead_eq⟩
+    (∀ t, findHead t = head t) ∧ (∀ t, findRefHead t = head t) ∧ (∀ t, resolveHead t = head t) ∧
+    (∀ t, infoResolveHead t = head t) ∧ (∀ t, infoResolveRefHead t = head t) :=
+  ⟨findHead_eq, findRefHead_eq, resolveHead_eq,
+    fun t => by cases t <;> rfl, fun t => by cases t <;> rfl⟩
+
+/-- non-vacuity: an open record is a variable, a closed one is not -/
+example : head (.recordVar 4 [] []) = some 4 ∧ head (.record [] []) = none := ⟨rfl, rfl⟩
 
 /-- obligation on the GENERATED arms of `TypeChecker::occurs`: for every
 constructor of `Type` the arm either compares the variable the type is, or
